@@ -344,12 +344,14 @@ def _xfilter(accumulator, test_range, condition, operating_range):
 
     from .operators import _get_type_id
     type_id, operator = _get_type_id(condition), LOGIC_OPERATORS[operator]
+    is_err = isinstance(condition, XlError)
     if type_id == 1:
         condition = condition.upper()
 
     @functools.lru_cache()
     def check(value):
-        if _get_type_id(value) != type_id:
+        if _get_type_id(value) != type_id or isinstance(
+                value, XlError) != is_err:
             return False
         return operator(value.upper() if type_id == 1 else value, condition)
 
